@@ -9,6 +9,7 @@
 import concurrent.futures
 import json
 import os
+import time
 
 from common import (Infra, go_must_pass, go_test, harness_overlay, read_ndjson, run_tlc, write_ndjson)
 
@@ -16,7 +17,8 @@ HOST_REGIMES = {"second-v4-hostgroup", "second-v6-hostgroup", "undo-after-partia
                 "undone-host-looked-up-again", "host-stored-in-two-groups", "interleaved-family-groups", "mixed-families"}
 SKIP_REGIMES = {"skip-saturated", "split-then-saturated-skip", "wrap-in-skipped-packets", "wrap-inside-empty-run"}
 MERGE_HOST_REGIMES = {"addindex-pops-partially-added-hosts", "merged-file-has-second-group-of-a-family",
-                      "new-group-although-family-present", "hosts-joined-into-existing-group"}
+                      "new-group-although-family-present", "hosts-joined-into-existing-group",
+                      "hosts-appended-to-group-sharing-the-readers-host-section"}
 NOISE = {"index-high-bits", "several-import-entries-one-capture", "leading-empty-packets", "server-speaks-first"}
 
 CONSTS = """  CapBytes = 7
@@ -69,12 +71,14 @@ def run_mcs(ctx, jobs):
             with open(p, "w") as fh:
                 fh.write(text)
             files = [p]
-        res = run_tlc(sub, module, cfg, files=files, workers=workers, timeout=1500 if not ctx.quick() else 400)
+        res = run_tlc(sub, module, cfg, files=files, workers=workers, timeout=1500 if not ctx.quick() else 400, heap="6g")
         return name, res
     out = {}
     with concurrent.futures.ThreadPoolExecutor(max_workers=len(jobs)) as ex:
         for name, res in ex.map(one, jobs):
             mcfail = [p for p in res.prints if "mcfail" in p]
+            if not res.finished and not mcfail and not res.invariant_violated and not res.error:
+                raise Infra("TLC run %s ended without a result (rc=%s; killed?):\n%s" % (name, res.rc, res.out[-600:]))
             if not res.ok() or mcfail:
                 raise Infra("exhaustive TLC run %s did not pass (a counterexample on the MODEL is not a verdict about the code):\n%s\n%s"
                             % (name, json.dumps(mcfail[:1])[:1500], "\n".join(l for l in res.out.splitlines() if "@@J" not in l)[-2500:]))
@@ -128,13 +132,43 @@ def run_harness(ctx, vectors, par=8):
     return json.load(open(out)), trace
 
 
-def report(ctx, fails, prop_preds):
-    """turn TLC's failing predicates into violations (one per narrow key)"""
+def selftest(ctx, trace):
+    """the binding binds: one corrupted observation / one dropped stream in a recorded row must be rejected by TLC"""
+    if ctx.quick():
+        return
+    row = None
+    with open(trace) as fh:
+        for line in fh:
+            if len(line) < 200000:
+                r = json.loads(line)
+                if (r["kind"] == "file" and r["err"] == "" and len(r["all"]) >= 2) or \
+                   (r["kind"] == "merge" and r["err"] == "" and len(r["after"]["visible"]) >= 2):
+                    row = r
+                    break
+    if row is None:
+        raise Infra("selftest: no usable row")
+    a, b = json.loads(json.dumps(row)), json.loads(json.dumps(row))
+    a["tr"], b["tr"] = 1, 2
+    if row["kind"] == "file":
+        a["all"][0]["cb"] += 1
+        b["all"] = b["all"][1:]
+        b["nall"] -= 1
+    else:
+        a["after"]["visible"][0]["last"] = "2020-01-01T12:00:00.000000001Z"
+        b["after"]["visible"] = b["after"]["visible"][1:]
+    d = ctx.sub("selftest")
+    p = os.path.join(d, "indexfile_trace.ndjson")
+    write_ndjson(p, [a, b])
+    tres = run_tlc(ctx, "IndexFileTrace", "IndexFileTrace.cfg", files=[p], workers=1, timeout=300, heap="2g")
+    trs = {f["tr"] for f in tres.prints if "fail" in f}
+    if tres.error or not tres.finished or trs != {1, 2}:
+        raise Infra("selftest: corrupted rows were not rejected by TLC:\n" + tres.out[-1500:])
+    ctx.notes.append("selftest: corrupted field and dropped stream rejected by TLC")
+
+
+def report(ctx, fails):
+    """turn TLC's failing predicates (evaluated on what the real code returned) into violations, one per narrow key"""
     for f in fails:
-        if f["fail"].split(".")[0] not in prop_preds:
-            # a predicate of the sibling property failed on a trace of this check (e.g. a file of a merge stack
-            # that already reads back wrong): report it under its own key as well - it is the same real behaviour
-            pass
         what = "%s on %s vector %s (regimes %s): %s" % (f["fail"], f["src"], f["name"], ",".join(f["regimes"][:6]),
                                                          json.dumps(f["info"], sort_keys=True)[:400])
         ctx.violation(f["key"], what, f)
@@ -155,27 +189,37 @@ def run_c01(ctx):
                                               "0, 8, 24" if quick else "0, 8, 24, 32", k, False), 2 if quick else 4),
     ]
     if not quick:
-        jobs.append(("pkts5", "IndexFileMC", None, mc_cfg("host", "host", "pkts", 1, 5, "99, 1, 3", "0, 8, 24", k, False), 4))
+        jobs.append(("pkts5", "IndexFileMC", None, mc_cfg("host", "host", "pkts", 1, 5, "99, 1, 3", "0, 24", k, False), 4))
+    t0 = time.time()
     mcs = run_mcs(ctx, jobs)
+    ctx.notes.append("model checking %.0fs" % (time.time() - t0))
     vecs = unique_vectors({n: r for n, r in mcs.items()}, "streams")
     if len(vecs) < 20:
         raise Infra("too few vectors from TLC: %d" % len(vecs))
 
     vectors, regimes_run = [], set()
+    per_regime = 1 if quick else 4          # scaled-back (expensive) concretisations per regime
+    used = {}
     for i, v in enumerate(vecs):
         regs = sorted(v["regimes"])
-        fresh = set(v["fresh"]) - NOISE
         base = {"vec": "c01", "regimes": regs, "streams": v["streams"], "seed": ctx.seed * 1000 + i}
         variants = ["A", "B"] if not quick else [["A", "B"][(ctx.seed + i) % 2]]
-        hostv = bool(fresh & HOST_REGIMES)
+        hostv = set(regs) & HOST_REGIMES
         if hostv and "A" not in variants:
             variants.append("A")
         for var in variants:
             vectors.append(dict(base, name="%s#%d/%s" % (v["mc"], i, var), variant=var, fill=False, rep=1))
-        if hostv:
+        want = {r for r in hostv if used.get(("fill", r), 0) < per_regime}
+        if want and v["mc"] != "hosts_asfound":
+            for r in hostv:
+                used[("fill", r)] = used.get(("fill", r), 0) + 1
             for var in (variants if not quick else variants[:1]):
                 vectors.append(dict(base, name="%s#%d/%s+fill" % (v["mc"], i, var), variant=var, fill=True, rep=1))
-        if fresh & SKIP_REGIMES or (set(regs) & {"skip-saturated"} and not quick):
+        skipv = set(regs) & SKIP_REGIMES
+        want = {r for r in skipv if used.get(("rep", r), 0) < 2 * per_regime}
+        if want:
+            for r in skipv:
+                used[("rep", r)] = used.get(("rep", r), 0) + 1
             vectors.append(dict(base, name="%s#%d/%s+rep" % (v["mc"], i, variants[0]), variant=variants[0], fill=False, rep=128))
         regimes_run |= set(regs)
     nrand, nbig = (200, 1) if quick else (1500, 3)
@@ -184,9 +228,13 @@ def run_c01(ctx):
     for j in range(nbig):
         vectors.append({"vec": "c01", "name": "randbig%d" % j, "random": 1, "big": True, "seed": ctx.seed * 104729 + j, "regimes": []})
 
+    t0 = time.time()
     summ, trace = run_harness(ctx, vectors, par=12)
+    t1 = time.time()
     rows, fails = validate_trace(ctx, trace, "C01")
-    report(ctx, fails, {"ReadBack", "LookupExact"})
+    ctx.notes.append("harness %.0fs, trace validation %.0fs; slowest vectors: %s" % (t1 - t0, time.time() - t1, ", ".join(summ.get("slowest", [])[:5])))
+    report(ctx, fails)
+    selftest(ctx, trace)
 
     sample = read_ndjson_head(trace, 2)
     cov = {
@@ -204,7 +252,7 @@ def run_c01(ctx):
         "exhaustive": True,
         "vectors_from_tlc": len(vecs), "vectors_run": len(vectors), "files_written": summ["files"], "filler_streams": summ["fillers"],
         "regimes": sorted(regimes_run), "random_sets": nrand // 8 * 8 + nbig,
-        "predicate_failures": len(fails),
+        "predicate_failures": len(fails), "timing": list(ctx.notes),
         "samples": sample,
     }
     return "exploration", cov, [
@@ -233,20 +281,22 @@ def run_c07(ctx):
     k = 2 if quick else 4
     if quick:
         jobs = [("merge3", "IndexFileMergeMC", None,
-                 merge_cfg([1, 2, 3], 3, 2, ["p0", "p3", "mix"], ["a0", "d2"], ["p3"], ["d2"], k), 14)]
+                 merge_cfg([1, 2, 3], 3, 2, ["p0", "p3", "u"], ["a0", "d2"], ["p3", "mix"], ["d2"], k), 14)]
     else:
         jobs = [("merge3", "IndexFileMergeMC", None,
-                 merge_cfg([1, 2, 3], 3, 2, ["p0", "p3", "mix", "v6"], ["a0", "d0", "a2", "d2"], ["p3", "mix"], ["a0", "d2"], k), 10),
+                 merge_cfg([1, 2, 3], 3, 2, ["p0", "p3", "mix", "v6", "u"], ["a0", "d0", "a2", "d2"], ["p3", "mix"], ["a0", "d2"], k), 10),
                 ("merge2x4", "IndexFileMergeMC", None,
-                 merge_cfg([1, 2, 3, 4], 2, 2, ["p0", "p3", "mix", "v6"], ["a0", "d0", "a2", "d2"], ["p3"], ["d2"], k), 6)]
+                 merge_cfg([1, 2, 3, 4], 2, 2, ["p0", "p3", "mix", "v6", "u"], ["a0", "d0", "a2", "d2"], ["p3"], ["d2"], k), 6)]
+    t0 = time.time()
     mcs = run_mcs(ctx, jobs)
+    ctx.notes.append("model checking %.0fs" % (time.time() - t0))
     vecs = unique_vectors(mcs, "ops")
     if len(vecs) < 10:
         raise Infra("too few vectors from TLC: %d" % len(vecs))
 
     vectors, regimes_run, nfill = [], set(), 0
-    fill_budget = 4 if quick else 24
-    fill_seen = set()
+    per_regime = 1 if quick else 4          # scaled-back (16380 filler hosts per file) concretisations per host regime
+    used = {}
     for i, v in enumerate(vecs):
         regs = sorted(v["regimes"])
         ops = [{"op": o["op"], "from": o["from"], "streams": o["streams"]} for o in v["ops"]]
@@ -254,10 +304,10 @@ def run_c07(ctx):
         variants = ["A", "B"] if not quick else [["A", "B"][(ctx.seed + i) % 2]]
         for var in variants:
             vectors.append(dict(base, name="%s#%d/%s" % (v["mc"], i, var), variant=var, fill=False, rep=1))
-        hr = (set(v["fresh"]) & MERGE_HOST_REGIMES) - fill_seen
-        if hr and nfill < fill_budget:
-            if quick:
-                fill_seen |= hr
+        hr = set(regs) & MERGE_HOST_REGIMES
+        if {r for r in hr if used.get(r, 0) < per_regime}:
+            for r in hr:
+                used[r] = used.get(r, 0) + 1
             nfill += 1
             vectors.append(dict(base, name="%s#%d/%s+fill" % (v["mc"], i, variants[0]), variant=variants[0], fill=True, rep=1))
         regimes_run |= set(regs)
@@ -265,9 +315,13 @@ def run_c07(ctx):
     for j in range(8):
         vectors.append({"vec": "c07", "name": "randstack%d" % j, "random": nrand // 8, "seed": ctx.seed * 7919 + j, "regimes": []})
 
+    t0 = time.time()
     summ, trace = run_harness(ctx, vectors, par=8)
+    t1 = time.time()
     rows, fails = validate_trace(ctx, trace, "C07")
-    report(ctx, fails, {"Visible", "VisibleBefore", "Searches", "InputsIntact", "Merge"})
+    ctx.notes.append("harness %.0fs, trace validation %.0fs; slowest vectors: %s" % (t1 - t0, time.time() - t1, ", ".join(summ.get("slowest", [])[:5])))
+    report(ctx, fails)
+    selftest(ctx, trace)
 
     cov = {
         "states": sum(r.distinct for r in mcs.values()), "transitions": sum(r.generated for r in mcs.values()),
@@ -285,7 +339,7 @@ def run_c07(ctx):
         "exhaustive": True,
         "vectors_from_tlc": len(vecs), "vectors_run": len(vectors), "merges": summ["merges"], "many_host_vectors": nfill,
         "regimes": sorted(regimes_run), "random_stacks": nrand // 8 * 8,
-        "predicate_failures": len(fails),
+        "predicate_failures": len(fails), "timing": list(ctx.notes),
         "samples": [{"regimes": v["regimes"], "ops": [(o["op"], o["from"], [s["id"] for s in o["streams"]]) for o in v["ops"]]} for v in vecs[:3]],
     }
     return "exploration", cov, [
